@@ -63,20 +63,14 @@ theorem getters_covered :
     (∀ f, f ∈ getterReads → f ∈ stateFields) ∧ listener.errSlot ∈ getterReads := by decide
 
 /-- before the parse starts, the default (printing) listeners are removed from lexer and parser and
-    the collecting listener is attached to both — otherwise a syntax error would go unreported and
-    the recovered tree would be returned as if the text were valid -/
+    the collecting listener is attached to both (in this order, before `parser->start()`) — otherwise a
+    syntax error would go unreported and the recovered tree would be returned as if the text were valid -/
 theorem listener_installed :
     listenerAttached = ["lexer", "parser"] ∧
     (∀ obj, obj ∈ ["lexer", "parser"] →
-      ∃ pre mid post, doParseSteps = pre ++ [Step.call obj "removeErrorListeners" none] ++ mid ++
-          [Step.call obj "addErrorListener" none] ++ post ∧
-        Step.call "parser" "start" (some "%tree") ∈ post) := by
-  refine ⟨by decide, ?_⟩
-  intro obj h
-  simp only [List.mem_cons, List.mem_nil_iff, or_false] at h
-  rcases h with rfl | rfl
-  · exact ⟨doParseSteps.take 9, [], doParseSteps.drop 11, by decide, by decide⟩
-  · exact ⟨doParseSteps.take 11, [], doParseSteps.drop 13, by decide, by decide⟩
+      isSubseq [Step.call obj "removeErrorListeners" none, Step.call obj "addErrorListener" none,
+                Step.call "parser" "start" (some "%tree")] doParseSteps = true) := by
+  decide
 
 /-- bindings.cpp has no mutable file-scope variable besides the three the model accounts for
     (`g_state`; `g_type_map`, filled once behind an emptiness guard; the stateless listener object) -/
@@ -86,14 +80,14 @@ theorem statics_accounted :
 
 /-- non-vacuity (kernel-checked, `tiny` interpretation): an invalid text records an error built from
     that text; the valid text parsed next gets exactly what a first parse gives -/
-example :
+theorem demo_second_parse_is_fresh :
     parseSeq tiny listener doParseSteps ["syntax_error", "comments"] tinyInit ["bad", "ok"] =
       [[[9, 7], [1, 5]], [[], [1, 5]]] := by decide
 
 /-- the check is discriminating: without `g_state.syntax_error.reset()` / `g_state.comments.clear()`
     the step list fails `historyFree`, and the `tiny` interpretation shows the stale error /
     the accumulated comments on the second parse -/
-example :
+theorem history_check_discriminates :
     historyFree listener (doParseSteps.filter (· != Step.reset "syntax_error")) (stateFields ++ [retSlot]) = false ∧
     parseSeq tiny listener (doParseSteps.filter (· != Step.reset "syntax_error")) ["syntax_error"] (fun _ => []) ["bad", "ok"] =
       [[[9, 7]], [[9, 7]]] ∧
@@ -102,7 +96,7 @@ example :
       [[[3, 5]], [[3, 5, 5]]] := by decide
 
 /-- … and without the first-error guard the LAST event would win -/
-example :
+theorem unguarded_last_error_wins :
     (listen tiny { listener with guarded := false } (listen tiny { listener with guarded := false }
         (set tinyInit "syntax_error" []) { line := 1, cpos := 0, msg := "first" }) { line := 1, cpos := 5, msg := "second" }) "syntax_error"
       = tiny.mkErr { line := 1, cpos := 5, msg := "second" } [[3]] := by decide
@@ -298,7 +292,7 @@ theorem location_nonascii_counter :
   decide
 
 /-- non-vacuity of `location_in_input`: tab-indented line, error at the `;` -/
-example : (reported "\t\ta := b +;\n".toList 1 10).column = 17 ∧
+theorem location_example_tab : (reported "\t\ta := b +;\n".toList 1 10).column = 17 ∧
     (reported "\t\ta := b +;\n".toList 1 10).sourceLine = "        a := b +;".toList := by decide
 
 end VtlModel.C23
